@@ -303,7 +303,7 @@ fn model_atan2(y: &Jet<f64>, x: &Jet<f64>, b: &Basis) -> (Vec<f64>, Vec<f64>) {
 fn main() {
     let ctx = Ctx::from_args("C01");
     ndv_checks::warm_up_f32();
-    let acc = ctx.parallel(|shard, nshards| {
+    let mut acc = ctx.parallel(|shard, nshards| {
         let mut acc = Acc::new();
         let mut t = 0u64;
         macro_rules! go {
@@ -316,6 +316,8 @@ fn main() {
         let _ = t;
         acc
     });
+    // results must not depend on what was called before, on which thread, or at the same time
+    acc.merge(ndv_checks::history_independence(ndv_checks::Family::Elementary, &ctx));
     let funcs_seen: std::collections::BTreeSet<String> =
         acc.classes.keys().map(|k| k.split('|').next().unwrap().to_string()).collect();
     let types_seen: std::collections::BTreeSet<String> =
